@@ -100,7 +100,7 @@ def entry_text(n: Node, sp: Spelling) -> str:
             # 'A. B' -- a period followed by a blank inside the literal -- only in the kind of its own: finding D46)
             lits = ("'A.B'", "'COMP'", "'COMP-3'", '"BINARY"', "'IT''S'", '"A""B"', "'X''YZ'")
             lit = "ZERO" if (n.pic or "").upper().lstrip("S").startswith("9") else \
-                ("'A. B'" if sp.extra == "value-dot" else lits[(n.level + len(n.name or "")) % 7])
+                ("'A.\x00B'" if sp.extra == "value-dot" else lits[(n.level + len(n.name or "")) % 7])   # \x00: a blank no rewrite may break at
             clauses.append(("extra", f"{kw('VALUE')} {lit}"))
         elif sp.extra in ("just", "just-last") and (n.pic or "").upper().startswith("X"):
             clauses.append(("extra", f"{kw('JUSTIFIED')} {kw('RIGHT')}" if sp.extra == "just" else kw("JUST")))
@@ -175,12 +175,16 @@ def render_spelled(root: Node, sp: Spelling) -> tuple[str, list[str]]:
             if sp.ident:
                 line = line.ljust(72) + "IDENT001"
             phys.append(line)
+            if sp.noise_lines and j < len(chunks) - 1 and not chunks[j + 1].startswith("-"):
+                # comment / blank / directive lines may also stand between the lines of ONE entry
+                phys.append(sp.noise_lines[(k + j + 1) % len(sp.noise_lines)])
         if sp.noise_lines and k < len(out_entries) - 1:
             phys.append(sp.noise_lines[k % len(sp.noise_lines)])
     if sp.full_line:
         phys[-1] = phys[-1][:72].rstrip()
         body = phys[-1]
         phys[-1] = body[:7] + body[7:].rjust(65)      # right-align so that the period sits in column 72
+    phys = [ln.replace("\x00", " ") for ln in phys]
     text = "\n".join(phys) + ("\n" if sp.trailing_newline else "")
     return text, phys
 
@@ -196,7 +200,8 @@ def apply_kind(kind: str, sp: Spelling, rng, levels: list[int]) -> None:
     elif kind == "blank-lines":
         sp.noise_lines = ["", "      ", "          "]
     elif kind == "eject-skip":
-        sp.noise_lines = ["       EJECT", "       SKIP1", " SKIP2", "SKIP3"]
+        sp.noise_lines = ["       EJECT", "       SKIP1", "       SKIP2", "       SKIP3", " SKIP2", "SKIP3", "           SKIP3   ", "        EJECT"]
+        sp.breaks = True          # entries over several lines, so that the directives also stand inside an entry
     elif kind == "picture-word":
         sp.pic_word = "PICTURE"
     elif kind == "picture-is":
@@ -277,13 +282,12 @@ def apply_kind(kind: str, sp: Spelling, rng, levels: list[int]) -> None:
 KINDS = ["seq-numbers", "ident-area", "comment-lines", "blank-lines", "eject-skip", "picture-word", "picture-is", "usage-word-omitted",
          "usage-is", "usage-synonym", "clause-order", "line-breaks", "several-entries-per-line", "extra-spacing", "tabs",
          "comma-separators", "semicolon-separators", "times-omitted", "on-omitted", "key-is-indexed-by", "level-renumbering",
-         "value-clause", "justified-right", "justified-as-last-clause", "blank-when-zero", "sync", "88-levels", "expanded-repeat-counts"]
+         "value-clause", "value-literal-period-blank", "justified-right", "justified-as-last-clause", "blank-when-zero", "sync", "88-levels", "expanded-repeat-counts"]
 KNOWN_KINDS = {
     "separator-after-picture": "respell:separator-after-picture",          # D26
     "indexed-by-without-key": "respell:indexed-by-without-key",            # D27
     "continuation-line": "respell:continuation-line",                      # D28
     "blank-when-zeros": "respell:blank-when-zeros",                        # D42 (test-pinned)
-    "value-literal-period-blank": "respell:value-literal-period-blank",    # D46
     "indexed-by-before-picture": "respell:indexed-by-before-picture",      # D33
     "lowercase-keywords": "respell:lowercase-keywords",                    # D20
     "lowercase-picture": "respell:lowercase-picture",                      # D20
